@@ -62,7 +62,39 @@ def run(ctx):
         if not behs:
             ctx.broken("no behaviours in set " + name)
             return
-        if ctx.replay_behaviours(binp, "TestVerifC39", "files", behs, name=name, nontrivial=nontrivial,
-                                 timeout=1500) is None:
+        if not replay(ctx, binp, name, behs, nontrivial):
             return
     ctx.cov["exhaustive"] = True
+
+
+def replay(ctx, binp, name, behs, nontrivial):
+    """ctx.replay_behaviours plus one more class of result: a difference in the wire format only (the walks
+    agree with the model) is a defect of the model's binding, not a violation of the round-trip property."""
+    inp = ctx.write_ndjson("beh_%s.ndjson" % name, behs)
+    recs, out, rc = ctx.go_run(binp, "TestVerifC39", pkg="files", infile=inp, mode="replay", timeout=1500)
+    summ = [r for r in recs if r.get("summary")]
+    if rc != 0 or not summ or summ[-1].get("n") != len(behs):
+        ctx.save_text("replay_%s_driver.out" % name, out[-20000:])
+        ctx.broken("replay driver %s died or was incomplete (rc=%s): %s" % (name, rc, out[-1500:]))
+        return False
+    wire = 0
+    for r in recs:
+        if r.get("ok") is not False:
+            continue
+        beh = behs[r["i"]]
+        what = "%s#%s %s: %s" % (name, r["i"], "form" if r.get("step") == 0 else "attachment", r.get("what"))
+        if r.get("wire"):
+            wire += 1
+            if wire == 1:
+                ctx.broken("the Serialize model no longer matches MultiFileReader's wire format (round trip still agrees): " + what)
+        elif r.get("dev"):
+            ctx.deviation(r["dev"], what, dict(behaviour=beh, disagreement=r))
+        else:
+            ctx.violation(what, dict(behaviour=beh, disagreement=r))
+    ctx.cov["traces_validated_against_impl"] += len(behs)
+    ctx.cov["evaluations"] += len(behs)
+    for b in behs:
+        if nontrivial(b):
+            ctx.nontrivial(b)
+    ctx.sample(behs[len(behs) // 2]["tree"])
+    return True
